@@ -92,7 +92,7 @@ impl<'a> G<'a> {
             let honest = src.map(|h| refmodel::ristretto::encode(&self.val(1, h)));
             dict::ristretto_wire(&mut self.rng, honest, faulty, &mut self.c)
         };
-        let via = if bytes.len() != 32 { 1 + 2 * self.rng.below(2) as u8 } else { self.rng.below(4) as u8 };
+        let via = if bytes.len() != 32 { 1 + 2 * self.rng.below(2) as u8 } else { self.rng.below(6) as u8 };
         let dst = self.dst();
         { let st__ = Step::Dec { g, dst, b: B(bytes), via }; self.emit(st__); }
     }
@@ -309,14 +309,52 @@ impl<'a> G<'a> {
                 { let st__ = Step::Cmp { g, a }; self.emit(st__); }
             }
             10 => {
-                // equality, biased to equal-by-construction pairs
-                let b = if self.rng.coin() { self.pick(g).unwrap_or(a) } else { a };
-                { let st__ = Step::Eq { g, a, b }; self.emit(st__); }
+                // equality: same handle, unrelated handles, and the exceptional pairs (P vs -P, P vs P+T, two torsion points)
+                let b = match self.rng.below(6) {
+                    0 => a,
+                    1 => {
+                        let nd = self.dst();
+                        { let st__ = Step::Neg { g, dst: nd, a }; self.emit(st__); }
+                        nd
+                    }
+                    2 if g == 0 => {
+                        let t = ed::torsion()[1 + self.rng.below(7) as usize];
+                        let td = self.dst();
+                        { let st__ = Step::Dec { g: 0, dst: td, b: B(t.encode().to_vec()), via: 0 }; self.emit(st__); }
+                        let sd = self.dst();
+                        { let st__ = Step::Bin { g: 0, dst: sd, a, b: td, sub: false, via: 0 }; self.emit(st__); }
+                        bump(&mut self.c, "probe:eq_against_torsion_shift");
+                        sd
+                    }
+                    3 if g == 0 => {
+                        // two small-order points against each other (includes the y = 0 and x = 0 pairs)
+                        let (i, j) = (self.rng.below(8) as usize, self.rng.below(8) as usize);
+                        let (d1, d2) = (self.dst(), self.dst());
+                        { let st__ = Step::Dec { g: 0, dst: d1, b: B(ed::torsion()[i].encode().to_vec()), via: 0 }; self.emit(st__); }
+                        { let st__ = Step::Dec { g: 0, dst: d2, b: B(ed::torsion()[j].encode().to_vec()), via: 0 }; self.emit(st__); }
+                        bump(&mut self.c, "probe:eq_two_torsion_points");
+                        if self.file(0)[d1 as usize].is_some() && self.file(0)[d2 as usize].is_some() && d1 != d2 {
+                            { let st__ = Step::Eq { g: 0, a: d1, b: d2 }; self.emit(st__); }
+                        }
+                        d2
+                    }
+                    _ => self.pick(g).unwrap_or(a),
+                };
+                if self.file(g)[a as usize].is_some() && self.file(g)[b as usize].is_some() {
+                    { let st__ = Step::Eq { g, a, b }; self.emit(st__); }
+                }
             }
             11 => self.decode(g),
             12 => {
                 if self.rng.chance(1, 4) {
                     { let st__ = Step::Zero { g, a }; self.emit(st__); }
+                } else if g == 0 && self.rng.coin() {
+                    // the library's public small-order constants, then used as an operand
+                    let which = 3 + self.rng.below(8) as u8;
+                    bump(&mut self.c, "probe:torsion_constant_used");
+                    { let st__ = Step::Const { g, dst, which }; self.emit(st__); }
+                    let d2 = self.dst();
+                    { let st__ = Step::Bin { g: 0, dst: d2, a, b: dst, sub: self.rng.coin(), via: self.rng.below(4) as u8 }; self.emit(st__); }
                 } else {
                     { let st__ = Step::Const { g, dst, which: self.rng.below(3) as u8 }; self.emit(st__); }
                 }
@@ -332,7 +370,17 @@ impl<'a> G<'a> {
                         // include the identity coset
                         let id = self.dst();
                         { let st__ = Step::Const { g: 1, dst: id, which: 0 }; self.emit(st__); }
-                        hs.push(id);
+                        if self.rng.coin() {
+                            // the identity element held as another coset representative (order-2 / order-4 point)
+                            let j = 1 + self.rng.below(3) as u8;
+                            { let st__ = Step::Rerep { a: id, j }; self.emit(st__); }
+                            bump(&mut self.c, "probe:batch_with_torsion_representative_of_identity");
+                        }
+                        if self.rng.coin() {
+                            hs.insert(0, id);
+                        } else {
+                            hs.push(id);
+                        }
                         bump(&mut self.c, "probe:batch_with_identity");
                     }
                     { let st__ = Step::Batch { hs }; self.emit(st__); }
@@ -416,6 +464,9 @@ pub fn generate(seed: u64, run: u64, cfg: &GenCfg) -> Plan {
         _ => 35,
     };
     g.bootstrap(0);
+    if focus == "C04" || g.rng.chance(1, 3) {
+        g.add_torsion();
+    }
     if ris_pct > 0 {
         g.bootstrap(1);
     }
